@@ -103,6 +103,12 @@ def cases_elementary(tier, seed):
             yield dict(f='MOD', x=x, y=y)
             yield dict(f='ATAN2', x=x, y=y)
             yield dict(f='LOG', x=x, y=y)
+    # whole-number bases and exponents around the end of the double range (results representable up to 2^1024 exclusive) and float spellings of the same
+    for b, e in ((2, 511), (2, 512), (2, 1000), (2, 1023), (2, 1024), (10, 255), (10, 256), (10, 308), (10, 309), (3, 645), (3, 646), (3, 700), (7, 364), (7, 365),
+                 (255, 128), (256, 128), (-3, 645), (-2, 1023), (-2, 1024), (1, 1250), (-1, 1251), (0, 5000), (16, 255), (16, 256), (1000, 102), (1000, 103)):
+        for f in ('POWER', '^'):
+            yield dict(f=f, x=b, y=e)
+            yield dict(f=f, x=float(b), y=e)
     for n in list(range(-2, 25)) + [50, 100, 170, 171, 2.9]:
         yield dict(f='FACT', x=n)
         yield dict(f='FACTDOUBLE', x=n)
@@ -228,6 +234,6 @@ DRIVERS = [
            rule='ROUND/ROUNDUP/ROUNDDOWN/TRUNC x 35 fixed + 120 (quick) / 1500 (thorough) seeded decimals of up to 15 significant digits x every digit count -10..10; INT, EVEN; CEILING/FLOOR x 12 significances of both signs; exact decimal reference on repr(x)',
            bound='see rule'),
     Driver('C16/B5.elementary', cases_elementary, oracle_elementary, nchunks=8,
-           rule='17 unary functions x 26 fixed + seeded points incl. domain edges; POWER, ^, MOD, ATAN2, LOG x 30 x 10 argument pairs; FACT/FACTDOUBLE -2..171; mpmath 60-digit reference rounded to binary64, 4 ulp; arguments outside the domain must give an Excel error value, never NaN / infinity / a Python exception',
+           rule='17 unary functions x 26 fixed + seeded points incl. domain edges; POWER, ^, MOD, ATAN2, LOG x 30 x 10 argument pairs; POWER / ^ on 26 whole-number (base, exponent) pairs around the end of the double range, as ints and as floats; FACT/FACTDOUBLE -2..171; mpmath 60-digit reference rounded to binary64, 4 ulp; arguments outside the domain must give an Excel error value, never NaN / infinity / a Python exception',
            bound='see rule'),
 ]
